@@ -153,7 +153,7 @@ Definition ex_rq_rs : list rq_rec :=
     {| rq_name := [97;45;98]; rq_version := [49;46;48;46;112;111;115;116;49] |} ].
 Definition ex_rq_l : rq_layout :=
   {| ry_recs := [ {| rl_before := [(RComment [] [32;112;105;110;110;101;100], LF); (ROption [105;32;104;116;116;112;115;58;47;47;120], CRLF)];
-                     rl_lead := [32]; rl_ws1 := [32]; rl_ws2 := [9]; rl_trail := [32]; rl_eol := CRLF |} ];
+                     rl_lead := [32]; rl_ws1 := [32]; rl_ws2 := [9]; rl_trail := [32]; rl_eol := CRLF; rl_cont := Some (CRLF, [32;32]) |} ];
      ry_after := [(RBlank [], LF)]; ry_final_nl := true |}.
 Example requirements_example_wf : wf_rq_records ex_rq_rs && wf_rq_layout ex_rq_rs ex_rq_l && rq_in_D ex_rq_rs ex_rq_l = true.
 Proof. vm_compute. reflexivity. Qed.
